@@ -117,6 +117,9 @@ type Exec struct {
 	guard                *Term
 	spec                 int
 	rawInit              bool
+	realRange            map[int]rint
+	realInt              map[int]bool
+	emitted              []*Term
 	unlockedReads        map[interface{}]bool
 	writtenTagged        map[interface{}]bool
 	lineScanners         map[*Loc]*lineScanner
@@ -1283,6 +1286,9 @@ func (ex *Exec) unop(fr *Frame, in *ssa.UnOp) Value {
 		return ex.st.Not(x.(*Term))
 	case token.SUB:
 		t := x.(*Term)
+		if t.S.K == KReal {
+			return ex.relaxNeg(t)
+		}
 		if t.S.K == KFP {
 			return ex.st.FUn(OFNeg, t)
 		}
@@ -1301,6 +1307,9 @@ func (ex *Exec) binop(op token.Token, xt types.Type, x, y Value, yt types.Type) 
 		yv, ok := y.(*Term)
 		if !ok {
 			ex.unsupported("binop %s on %T,%T", op, x, y)
+		}
+		if xv.S.K == KReal || yv.S.K == KReal {
+			return ex.relaxBinop(op, xv, yv)
 		}
 		if xv.S.K == KBool {
 			switch op {
@@ -1652,6 +1661,19 @@ func (ex *Exec) bytesLess(ab, bb []*Term, orEq bool) *Term {
 
 func (ex *Exec) convert(x Value, from, to types.Type) Value {
 	st := ex.st
+	if t, ok := x.(*Term); ok && t.S.K == KReal {
+		// RELAX: floats and float-derived integers are real terms
+		if _, _, isInt := intInfo(to); isInt {
+			if isFloat(from) {
+				return ex.relaxTrunc(t)
+			}
+			return t
+		}
+		if isFloat(to) {
+			return t
+		}
+		ex.unsupported("RELAX: conversion of a real-valued term to %s", to)
+	}
 	fu, tu := from.Underlying(), to.Underlying()
 	// type params resolved by instantiation
 	if fb, ok := fu.(*types.Basic); ok {
